@@ -524,7 +524,8 @@ class VGen(Gen):
         if co == "default" and self.chance(0.5):
             # a text form the stdlib parses
             if ty == "decimal":
-                return r.choice([S("1.5"), S("1.50"), S(" 2 "), S("-0"), I(3), I(0), S("1e2"), S("5")])
+                return r.choice([S("1.5"), S("1.50"), S(" 2 "), S("-0"), I(3), I(0), S("1e2"), S("5"),
+                                 S("NaN"), S("Infinity"), S("-inf")])
             if ty == "uuid":
                 return S(r.choice(["12345678-1234-5678-1234-567812345678", "{12345678-1234-5678-1234-567812345678}",
                                    "00000000-0000-0000-0000-000000000001"]))
